@@ -22,7 +22,7 @@ def _fail(**kw):
     return False
 
 
-TEXT2 = "class G { G(); void run() const; }; namespace ns { class A { A(); int val; }; class AB { AB(); }; }"
+TEXT2 = "virtual class G { G(); void run() const; }; namespace ns { virtual class A { A(); int val; }; virtual class AB { AB(); }; }"
 with concrete():
     _INST = ti.instantiate_namespace(parser.Module.parseString(TEXT2))
 
@@ -55,6 +55,7 @@ def matlab_artefacts(files, cpp, ns, name):
         "collector_typedef": ("Collector_%s;" % flat) in cpp,
         "delete_all": ("collector_%s.begin()" % flat) in cpp,
         "routines": bool(re.search(r"^void %s_\w+_\d+\(" % flat, cpp, re.M)),
+        "rtti": ('"%s"));' % flat) in cpp,
     }
 
 
